@@ -92,7 +92,7 @@ def check(tier, seed, replay=None):
                 "(ctx) the &index, &index-in-file, &file-name and start/end selectors of every row against the byte ranges of the reference grammar; "
                 "distinct = distinct (argv, inputs); non-trivial = at least two values and (two deliveries or two files or a multi-line input)")
     chk.assumptions = ["input-context ranges are checked on streams whose values are separated by whitespace; touching values are the known finding "
-                       "KF-touching-start (its witness is run every time)", "directories are not used as inputs (enumeration order is the OS's)"]
+                       "KF-touching-start (its witness is run every time)", "the order in which a directory's entries are read is the file system's: any depth-first order of the operand tree is accepted (Run!Lin)"]
     jvh = build_harness()
     rnd = random.Random(seed)
     recipes = []
@@ -160,13 +160,20 @@ def check(tier, seed, replay=None):
         for parts in ([b'{"a":1} [1,', b'2] 3\n', b'4 "x'], [b'1 2 {"k":', b'{"k":2} 5', b'6'], [b'"abc', b'"d" tru', b'true [1]'], [b'[1,[2', b'7\n8\n', b'9']):
             for policy in ("ignore", "stderr"):
                 recipes.append({"kind": "files", "policy": policy, "mode": "fidx", "onlyObj": False, "parts": [hexs(p_) for p_ in parts], "names": None})
-        for i in range(6 if quick else 200):
-            parts = [clean_stream(rnd, rnd.choice([1, 2, 3])) for _ in range(5)]
+        for i in range(8 if quick else 200):
+            parts = [clean_stream(rnd, rnd.choice([0, 1, 2, 3])) for _ in range(5)]
             # files 0..2 live below top/ (one in a sub-directory), 3 and 4 outside; top/ has a link to file 3 and a link to the directory of file 4
             names = ["top/a.json", "top/sub/b.json", "top/c.json", "outside/d.json", "other/e.json"]
             links = [["top/ld.json", "outside/d.json"], ["top/lother", "other"]] if rnd.random() < 0.7 else []
+            # the operand tree as Run!Lin reads it (leaf = 1-based file number)
+            top = [{"leaf": 1}, {"dir": [{"leaf": 2}]}, {"leaf": 3}] + ([{"leaf": 4}, {"dir": [{"leaf": 5}]}] if links else [])
+            shape = rnd.choice(["top", "top", "file-top", "top-file", "sub-top"])
+            ops, tree = {"top": (["@DIR/top"], [{"dir": top}]),
+                         "file-top": (["@DIR/outside/d.json", "@DIR/top"], [{"leaf": 4}, {"dir": top}]),
+                         "top-file": (["@DIR/top", "@DIR/other/e.json"], [{"dir": top}, {"leaf": 5}]),
+                         "sub-top": (["@DIR/top/sub", "@DIR/top"], [{"dir": [{"leaf": 2}]}, {"dir": top}])}[shape]
             recipes.append({"kind": "dir", "policy": "ignore", "parts": [hexs(p) for p in parts], "names": names, "links": links,
-                            "inside": [0, 1, 2] + ([3, 4] if links else [])})
+                            "ops": ops, "tree": tree, "take": rnd.choice([0, 1, 2, 3, 4, 6])})
         # witness of the known finding: two texts that touch
         recipes.append({"kind": "ctx", "onlyObj": False, "srcs": [hexs(b'""1 [1][2]\n')], "files": False, "witness": "touching-values-start"})
     # ---- build harness cases
@@ -201,10 +208,11 @@ def check(tier, seed, replay=None):
         elif k == "dir":
             # a directory argument: every regular file below it (also through symbolic links) is read once; the order is the file system's
             argv = RL.argv_for(rc["policy"], "plain", False)
-            add(ri, {"argv": ["@DIR/top"] + argv, "stdin": "", "files": rc["parts"], "names": rc["names"], "links": rc["links"]})
-            for j in rc["inside"]:
+            add(ri, {"argv": rc["ops"] + argv, "stdin": "", "files": rc["parts"], "names": rc["names"], "links": rc["links"]})
+            for j in range(5):
                 add(ri, {"argv": ["@FILE0"] + argv, "stdin": "", "files": [rc["parts"][j]]})
-            add(ri, {"argv": ["@DIR/top", "--select=&index =i"], "stdin": "", "files": rc["parts"], "names": rc["names"], "links": rc["links"]})
+            add(ri, {"argv": rc["ops"] + argv + ["--take=%d" % rc["take"]], "stdin": "", "files": rc["parts"], "names": rc["names"], "links": rc["links"]})
+            add(ri, {"argv": rc["ops"] + ["--select=&index =i"], "stdin": "", "files": rc["parts"], "names": rc["names"], "links": rc["links"]})
         elif k == "ctx":
             argv = (CTX_SELECT_WRAPPED if rc.get("wrapped") else CTX_SELECT) + (["--only-objects-and-arrays"] if rc["onlyObj"] else [])
             if rc.get("wrapped") and ri % 2 == 0:
@@ -245,7 +253,8 @@ def check(tier, seed, replay=None):
                     idx.append(int(json.loads(ln).get("i", -1)))
                 except Exception:
                     idx.append(-1)
-            rec.update({"res": o[0]["res"], "out": list(bytes.fromhex(o[0]["out"])), "parts": [list(bytes.fromhex(x["out"])) for x in o[1:-1]],
+            rec.update({"res": o[0]["res"], "out": list(bytes.fromhex(o[0]["out"])), "parts": [list(bytes.fromhex(x["out"])) for x in o[1:6]],
+                        "tree": rc["tree"], "dtake": rc["take"], "tres": o[6]["res"], "tout": list(bytes.fromhex(o[6]["out"])),
                         "idx": idx, "idxres": o[-1]["res"]})
         else:
             rec = RL.base_record("ctx", "ignore", "ctx", rc["onlyObj"], None, b"")
